@@ -114,6 +114,13 @@ def run(prop_id, tier, seed, replay=None):
         mc_results.append(r)
 
     # classify
+    from collections import Counter
+    kinds = Counter(tuple(sorted(f)) for f in bad.values())
+    if kinds:
+        log(f'[{prop_id}] failure kinds: ' + '; '.join(f'{"+".join(k)} x{n}' for k, n in kinds.most_common(12)))
+    mach = [(i, f) for i, f in bad.items() if any(c.startswith('MACHINERY_') for c in f)]
+    if mach:
+        raise MachineryError(f'specification/harness inconsistency on records {mach[:5]}')
     known = vlib.load_known(prop_id)
     by_id = {r['i']: r for r in flat}
     viol, kf = [], {}
